@@ -136,7 +136,9 @@ def run_c25(out, tier, seed):
 def run_c23(out, tier, seed):
     res, cases, sealed, _ = generate("Derived" if tier == "quick" else "DerivedBig")
     mutations = 2 if tier == "quick" else 8
-    ctxs = ["none", "cipher", "keyset"]
+    # keyset_live / keyset_live_ct: the server's cookie keys, and every cookie field names a key the set holds
+    # (with a zero / a genuine ciphertext length) - the decoder then goes all the way into KeySet::decode_cookie
+    ctxs = ["none", "cipher", "keyset", "keyset_live", "keyset_live_ct"]
     results = run_cases("C23", cases, seed, ctxs, False, mutations)
     distinct = set()
     evals = 0
@@ -226,6 +228,6 @@ MANIFEST = {
                 note="model of the region design is small (9 regions); strength comes from the exhaustive single-fault replay; AEAD ideal; "
                      "multi-byte modifications not explored"),
     "C23": dict(level="exploration", technique=_T, design_ref="6.6, 7", engine="tlc+replay",
-                text="Decoder totality and predicted Ok/Err class on layouts, truncations, length edits, three key contexts, seeded mutations.",
+                text="Decoder totality and predicted Ok/Err class on layouts, truncations, length edits, three key contexts (the server-key context also with cookie fields that name a key the set holds), seeded mutations.",
                 note="lengths up to a few hundred bytes (not 4096); random mutations have only the no-panic oracle"),
 }
